@@ -18,7 +18,8 @@ def run(ctx):
     items, meta = [], []
     import os
     for n in range(int(os.environ.get('C40_N', 70 if q else 700))):
-        gen = asmgen.AsmGen(rng, loops=rng.random() < 0.6)
+        split = rng.random() < 0.5
+        gen = asmgen.AsmGen(rng, loops=rng.random() < 0.6, split_cells=split)
         src = gen.function()
         try:
             loc_db, lifter, cfg, head, make = asmgen.build(machine, src)
@@ -51,7 +52,7 @@ def run(ctx):
         start = J.loc_name(head)
         items.append({"t": "equiv", "a": orig, "b": tj, "starta": start, "startb": start, "w": 32, "obs": obs, "envs": envs,
                       "budget": 120, "ordered": True})
-        feats = {"loop": bool(make().has_loop()), "push": "PUSH" in src, "store": "PUSH" in src or "PTR [" in src and any(
+        feats = {"split": split, "loop": bool(make().has_loop()), "push": "PUSH" in src, "store": "PUSH" in src or "PTR [" in src and any(
             l.strip().startswith("MOV") and l.split(",")[0].find("PTR") >= 0 for l in src.split("\n")), "xchg": "XCHG" in src,
             "narrow": "BYTE PTR" in src or "WORD PTR" in src and "DWORD" not in src}
         meta.append((src, feats, orig != tj))
@@ -61,7 +62,7 @@ def run(ctx):
         counts[v.split(":")[0]] = counts.get(v.split(":")[0], 0) + 1
         if v.startswith("bad"):
             loads = any("PTR [" in l.split(",", 1)[-1] for l in mt[0].split("\n") if "," in l and not l.strip().startswith("LEA"))
-            if loads and mt[1]["store"] and MEM_CST in ctx.findings:
+            if loads and mt[1]["store"] and not mt[1]["split"] and MEM_CST in ctx.findings:
                 ctx.known(MEM_CST, "e.g. verdict %s on %s" % (v, mt[0][:300].replace("\n", " ; ")))
                 continue
             ctx.violation("propagated-graph-differs", {"source": mt[0], "features": mt[1], "verdict": v})
